@@ -1,11 +1,12 @@
 PROP = {
     "id": "C34",
     "theorem_modules": ["Verif.Properties.C34"],
-    "min_theorems": 4,
+    "min_theorems": 5,
     "required_theorems": [
         "Verif.Properties.C34.peephole_jumps",
         "Verif.Properties.C34.peephole_jumps_land",
         "Verif.Properties.C34.simulation_expr_partial",
+        "Verif.Properties.C34.simulation_expr_err_partial",
     ],
     "streams": [
         {"name": "vmeq", "driver": "drv_lang",
